@@ -121,10 +121,14 @@ class C13(Monitor):
             anon = rnd.random() < 0.12
             if shape_of and rnd.random() < 0.08:
                 # the job's G-code takes the tool into one of the regions (if a job is running: an episode opens), or out again
-                if rnd.random() < 0.7:
+                q = rnd.random()
+                if q < 0.6:
                     cmds = enter_commands(shape_of[rnd.choice(sorted(shape_of, key=repr))], True)
-                else:
+                elif q < 0.8:
                     cmds = [["g", "G28"], ["g", "G1 X190 Y190 F3000"]]
+                else:
+                    # a job that has homed one axis only so far (the other coordinates are still unknown to the filter)
+                    cmds = [["g", rnd.choice(["G28 X", "G28 Y", "G28 Z", "G28 X0"])]]
                 if cmds:
                     steps.extend(cmds)
                 if rnd.random() < 0.2:
